@@ -134,6 +134,16 @@ class C20:
         h = C01P.to_harness({"id": 0, "names": NAMES, "ops": [first, {"op": "restore"}, swap]})
         for _ in range(6):
             cases.append({"kind": 1, "names": h["names"], "ops": h["ops"], "probes": PROBES, "cmp_failed": True})
+        # two exec.d names for ONE source file of the layer: both are installed, the source stays
+        tool = keep_req([("z", "ZZ")])
+        tool["writes"].insert(0, {"w": "file", "rel": [bl("bin"), bl("multitool")], "data": bl("#!/bin/sh\n")})
+        both = {"op": "req", "n": "a", "q": {"kind": "cached", "launch": True, "build": False, "m": "G",
+                                             "inv": {"d": "delete", "cause": 1}, "res": {"d": "keep", "cause": 2}},
+                "writes": [{"w": "execd", "progs": [[bl("10-env"), {"layer_rel": [bl("bin"), bl("multitool")]}],
+                                                      [bl("20-path"), {"layer_rel": [bl("bin"), bl("multitool")]}]]}]}
+        h = C01P.to_harness({"id": 0, "names": NAMES, "ops": [tool, {"op": "restore"}, both]})
+        for _ in range(6):
+            cases.append({"kind": 1, "names": h["names"], "ops": h["ops"], "probes": PROBES, "cmp_failed": True})
         subsets = [["cdx", "spdx", "syft"], ["syft"], []]
         for la, st, bs, ls in itertools.product([True, False], [True, False], subsets, subsets):
             cases.append({"kind": 5, "cfg": base_cfg(exe="build", nargs=3, store="ok", pre=True,
